@@ -126,6 +126,7 @@ def pure_menu(k):
         ('compact:nothing_to_merge', 'compact', ([sib[0], sib[2]],), True),
         ('cell_to_children:same_resolution', 'cell_to_children', (c7, 7), True),
         ('compact:plain', 'compact', (list(sib[:7]),), False),
+        ('compact:ascending_with_duplicates', 'compact', (sorted(list(sib[:6]) + [sib[2], sib[5]]),), False),
         # calls that are rejected are calls too: they must leave nothing behind
         ('error:uncompact_finer_after_valid', 'uncompact', ([res0[2], sib[0], c7], 6), False),
         ('error:uncompact_target_31', 'uncompact', ([sib[1], sib[2]], 31), False),
